@@ -1395,7 +1395,7 @@ class TexArgs(list):
         self.all.remove(item)
         super().remove(item)
 
-    def pop(self, i):
+    def pop(self, i=-1):
         """Pop argument object at provided index.
 
         :param int i: Index to pop from the list
